@@ -254,3 +254,128 @@ pub fn replay(prop: &str, text: &str) -> i32 {
     None => { println!("NOT-REPRODUCED: this schedule does not violate {} on this tree", prop); 0 }
   }
 }
+
+
+// ---------------------------------------------------------------------------------------------------------------------------------
+// The REAL driver on real file descriptors (bounded, native; backs the assumption "RealDriver meets the Driver contract" of C10/C12):
+// keyboard, tablet switch and virtual keyboard are OS pipes; RealDriver (mio edge-triggered epoll, nix read / write, EAGAIN -> Busy),
+// DevInputReader, TabletModeSwitchReader, DevInputWriter and do_remapping_loop_one_device are the real ones, running in a thread.
+// A seeded schedule writes key events in batches of several records per write (so one readiness notification covers several events),
+// interleaved with tablet-switch records; everything the loop writes is decoded and compared, batch by batch, with the outputs of a
+// reference Mapper for the same events (no Special repeats: no timer). Not a proof and not exhaustive.
+fn rec(type_: u16, code: u16, value: i32) -> Vec<u8> { let mut v = vec![0u8; 16]; v.extend_from_slice(&type_.to_ne_bytes()); v.extend_from_slice(&code.to_ne_bytes()); v.extend_from_slice(&value.to_ne_bytes()); v }
+fn pending(fd: i32) -> i32 { let mut n: libc::c_int = 0; unsafe { libc::ioctl(fd, libc::FIONREAD, &mut n); } n }
+thread_local! { static LOOP_GONE: std::cell::Cell<bool> = std::cell::Cell::new(false); }
+// waits until the loop has read everything from fd; gives up at once when the loop thread is gone (the caller sets LOOP_GONE)
+fn wait_drained(fd: i32) { let t0 = Instant::now(); while pending(fd) > 0 && t0.elapsed() < Duration::from_millis(2000) && !LOOP_GONE.with(|g| g.get()) { thread::sleep(Duration::from_micros(200)); } if !LOOP_GONE.with(|g| g.get()) { thread::sleep(Duration::from_millis(2)); } }
+fn nonblock(fd: i32) { unsafe { let fl = libc::fcntl(fd, libc::F_GETFL); libc::fcntl(fd, libc::F_SETFL, fl | libc::O_NONBLOCK); } }
+
+enum Seg { Kb(Vec<Event>), Tab(bool), Both(bool, Vec<Event>) }
+fn expected_for(layout: &Layout, segs: &Vec<Seg>, choice: u32) -> Vec<Vec<Event>> {
+  let mut m = key_transforms::Mapper::for_layout(layout); let mut tablet = false; let mut out: Vec<Vec<Event>> = Vec::new(); let mut b = 0;
+  let mut kb = |m: &mut key_transforms::Mapper, tablet: bool, evs: &Vec<Event>, out: &mut Vec<Vec<Event>>| { if !tablet { for e in evs { let o = m.step(e.clone()); if !o.events.is_empty() { out.push(o.events); } } } };
+  for sg in segs { match sg {
+    Seg::Kb(evs) => kb(&mut m, tablet, evs, &mut out),
+    Seg::Tab(on) => { tablet = *on; let o = m.release_all(); if !o.is_empty() { out.push(o); } },
+    Seg::Both(on, evs) => { let tab_first = (choice >> b) & 1 == 1; b += 1;
+      if tab_first { tablet = *on; let o = m.release_all(); if !o.is_empty() { out.push(o); } kb(&mut m, tablet, evs, &mut out); }
+      else { kb(&mut m, tablet, evs, &mut out); tablet = *on; let o = m.release_all(); if !o.is_empty() { out.push(o); } } },
+  } }
+  out
+}
+
+fn real_case(seed: u64) -> Result<usize, String> {
+  let mut gr = crate::key_transforms::Rng(seed.wrapping_mul(0x9E3779B97F4A7C15) | 1);
+  let (mut layout, hist) = crate::key_transforms::gen_case(&mut gr, false);
+  for m in layout.mappings.iter_mut() { if let crate::keys::Repeat::Special { .. } = m.repeat { m.repeat = crate::keys::Repeat::Normal; } }
+  let mut r = PRng(seed.wrapping_mul(0xD1B54A32D192ED03) | 1);
+  let (kb_r, kb_w) = nix::unistd::pipe().map_err(|e| e.to_string())?;
+  let (tab_r, tab_w) = nix::unistd::pipe().map_err(|e| e.to_string())?;
+  let (out_r, out_w) = nix::unistd::pipe().map_err(|e| e.to_string())?;
+  nonblock(kb_r); nonblock(tab_r); nonblock(out_r);
+  let mut drv = RealDriver { rw: RW { r: crate::dev_input_rw::probe_reader_on(kb_r), w: crate::dev_input_rw::probe_writer_on(out_w), t: Some(TabletModeSwitchReader { fd: tab_r }) } };
+  let l2 = layout.clone();
+  let th = spawn(move || do_remapping_loop_one_device(&mut drv, l2, false));
+  let mut segs: Vec<Seg> = Vec::new(); let mut n_both = 0;
+  let mut i = 0;
+  thread::sleep(Duration::from_millis(2));     // let the loop register and block in poll
+  let mut batch = |r: &mut PRng, i: &mut usize| -> (Vec<u8>, Vec<Event>) { let n = 1 + r.below(4); let mut bytes: Vec<u8> = Vec::new(); let mut evs = Vec::new();
+    for _ in 0..n { if *i >= hist.len() { break; } let e = hist[*i].clone(); *i += 1; let (k, v) = match &e { Pressed(k) => (*k, 1), Released(k) => (*k, 0) };
+      bytes.extend(rec(1, k as u16, v)); if r.below(3) == 0 { bytes.extend(rec(4, 4, 1234)); } bytes.extend(rec(0, 0, 0)); evs.push(e); }
+    (bytes, evs) };
+  LOOP_GONE.with(|g| g.set(false));
+  let mut premature = false;
+  while i < hist.len() {
+    if th.is_finished() { LOOP_GONE.with(|g| g.set(true)); premature = true; break; }
+    let c = r.below(8);
+    if c == 0 && n_both < 3 {
+      // tablet switch and keyboard become ready in the SAME wake-up (no waiting in between); which one the loop handles first is up to epoll: both orders are accepted
+      wait_drained(kb_r); wait_drained(tab_r);
+      let on = r.below(2) == 0; let (bytes, evs) = batch(&mut r, &mut i);
+      nix::unistd::write(tab_w, &rec(5, 1, if on { 1 } else { 0 })).map_err(|e| e.to_string())?;
+      nix::unistd::write(kb_w, &bytes).map_err(|e| e.to_string())?;
+      segs.push(Seg::Both(on, evs)); n_both += 1;
+      wait_drained(tab_r); if r.below(2) == 0 { wait_drained(kb_r); thread::sleep(Duration::from_millis(3)); }
+      continue;
+    }
+    if c == 1 {
+      wait_drained(kb_r);
+      let on = r.below(2) == 0;
+      nix::unistd::write(tab_w, &rec(5, 1, if on { 1 } else { 0 })).map_err(|e| e.to_string())?;
+      segs.push(Seg::Tab(on));
+      wait_drained(tab_r);
+    }
+    let (bytes, evs) = batch(&mut r, &mut i);
+    nix::unistd::write(kb_w, &bytes).map_err(|e| e.to_string())?;     // several events in ONE write: one readiness edge
+    segs.push(Seg::Kb(evs));
+    if r.below(2) == 0 { wait_drained(kb_r); }
+  }
+  if th.is_finished() { LOOP_GONE.with(|g| g.set(true)); premature = true; }
+  if premature {
+    let res = th.join().map_err(|_| format!("schedule #{}: the loop thread panicked", seed))?;
+    for fd in [kb_r, kb_w, tab_r, tab_w, out_r, out_w] { let _ = nix::unistd::close(fd); }
+    return Err(format!("schedule #{}: the loop returned {:?} in the middle of the schedule although no read or write had failed and the keyboard was still there (events are lost)", seed, res));
+  }
+  wait_drained(kb_r); wait_drained(tab_r);
+  // collect what was written to the virtual keyboard
+  let mut raw: Vec<u8> = Vec::new(); let mut buf = vec![0u8; 65536];
+  loop { match nix::unistd::read(out_r, &mut buf) { Ok(0) => break, Ok(n) => raw.extend_from_slice(&buf[..n]), Err(_) => break } }
+  // stop the loop: close the reading end of the virtual keyboard, switch tablet mode off and press keys that are passed through: the write fails, the loop returns the error
+  let _ = nix::unistd::close(out_r);
+  let _ = nix::unistd::write(tab_w, &rec(5, 1, 0)); wait_drained(tab_r);
+  let mut stopper: Vec<u8> = Vec::new(); for k in [KeyCode::F24, KeyCode::F23] { stopper.extend(rec(1, k as u16, 1)); stopper.extend(rec(0, 0, 0)); }
+  let _ = nix::unistd::write(kb_w, &stopper);
+  let t0 = Instant::now(); while !th.is_finished() && t0.elapsed() < Duration::from_millis(3000) { thread::sleep(Duration::from_millis(1)); }
+  let finished = th.is_finished();
+  for fd in [kb_w, tab_w] { let _ = nix::unistd::close(fd); }
+  if !finished { return Err(format!("schedule #{}: the loop did not stop after a failed write to the virtual keyboard", seed)); }
+  let res = th.join().map_err(|_| format!("schedule #{}: the loop thread panicked", seed))?;
+  for fd in [kb_r, tab_r, out_w] { let _ = nix::unistd::close(fd); }
+  if res.is_ok() { return Err(format!("schedule #{}: the loop returned Ok although a write failed", seed)); }
+  // decode: records of 24 bytes, EV_KEY events, a SYN record closes a batch
+  if raw.len() % 24 != 0 { return Err(format!("schedule #{}: {} bytes written to the virtual keyboard, not a multiple of 24", seed, raw.len())); }
+  let mut got: Vec<Vec<Event>> = Vec::new(); let mut cur: Vec<Event> = Vec::new();
+  for c in raw.chunks(24) {
+    let t = u16::from_ne_bytes([c[16], c[17]]); let code = u16::from_ne_bytes([c[18], c[19]]); let v = i32::from_ne_bytes([c[20], c[21], c[22], c[23]]);
+    if t == 0 { got.push(std::mem::take(&mut cur)); }
+    else if t == 1 { let k: KeyCode = match num_traits::FromPrimitive::from_u16(code) { Some(k) => k, None => return Err(format!("schedule #{}: unknown key code {} written", seed, code)) };
+      cur.push(if v == 1 { Pressed(k) } else { Released(k) }); }
+  }
+  let mut first: Option<Vec<Vec<Event>>> = None;
+  for choice in 0..(1u32 << n_both) { let e = expected_for(&layout, &segs, choice); if e == got { return Ok(got.len()); } if first.is_none() { first = Some(e); } }
+  let expected = first.unwrap();
+  let n = got.iter().zip(expected.iter()).take_while(|(a, b)| a == b).count();
+  Err(format!("schedule #{} (layout {}): write #{} on the real pipe is {:?}; the mapper's output for the delivered events is {:?} there ({} writes, {} expected; {} order(s) of simultaneous tablet/keyboard readiness tried)", seed,
+    serde_json::to_string(&layout).unwrap(), n, got.get(n), expected.get(n), got.len(), expected.len(), 1u32 << n_both))
+}
+
+pub fn real_driver(seed: u64, cases: u64) -> i32 {
+  let mut fails: Vec<String> = Vec::new(); let mut writes = 0usize;
+  for c in 0..cases { match real_case(seed.wrapping_mul(7919).wrapping_add(c)) { Ok(n) => writes += n, Err(m) => { if fails.len() < 3 { fails.push(format!("{{\"input\":\"real-driver schedule {}\",\"what\":{}}}", seed.wrapping_mul(7919).wrapping_add(c), serde_json::to_string(&m).unwrap())); } } } }
+  println!("{{\"cases\":{},\"writes_compared\":{},\"failures\":[{}]}}", cases, writes, fails.join(","));
+  if fails.is_empty() { 0 } else { 1 }
+}
+
+pub fn real_driver_one(schedule: u64) -> i32 {
+  match real_case(schedule) { Ok(n) => { println!("NOT-REPRODUCED: {} writes to the virtual keyboard, all equal to the mapper's outputs for the delivered events", n); 0 }, Err(m) => { println!("REPRODUCED: {}", m); 1 } }
+}
